@@ -136,3 +136,47 @@ PROPS["C11"] = dict(
     trusted=["goja typed arrays / ArrayBuffer sharing; x/text UTF-8 transcoders, encoding/hex, encoding/base64, dop251/base64dec (modelled, compared)"],
     assumptions=["latin1/ascii/utf16le are not implemented by the library and are outside the claim"],
 )
+
+
+def _c09_inventory(data):
+    """C09_inventory: the Buffer.prototype methods found in the runtime are exactly the registrations the translator saw."""
+    import os, re
+    gen = open(os.path.join(os.path.dirname(os.path.abspath(__file__)), "coq", "Gen", "BufferMethods.v")).read()
+    m = re.search(r"Definition registrations .*?:= \[(.*?)\]\.", gen, re.S)
+    regs = set(re.findall(r'\("([A-Za-z0-9_]+)", "', m.group(1))) if m else set()
+    inv = set()
+    if not data.get("extra", {}).get("inventory"):
+        return
+    for t in data.get("extra", {}).get("inventory", []):
+        mm = re.match(r'Buffer\.prototype\["([A-Za-z0-9_]+)"\]$', t)
+        if mm:
+            inv.add(mm.group(1))
+    if regs != inv:
+        data.setdefault("impl_failures", []).append({
+            "case_id": -1, "oracle": "inventory-differs-from-translated-registrations", "tags": [],
+            "detail": {"only_in_runtime": sorted(inv - regs), "only_in_source_tables": sorted(regs - inv)}})
+    data.setdefault("extra", {})["inventory_checked_against_gen"] = len(inv)
+
+
+PROPS["C09"] = dict(
+    harness="hostile", module=None, post=_c09_inventory, harness_timeout=1500,
+    level_text="C09_no_trap_buffer / C09_no_trap_other: every index, slice and make of the Buffer natives, of url/escape.go, valueToURLPort and "
+               "util's js_format — a list of 136 verification conditions GENERATED from the source by symbolic execution, each with the guards "
+               "that precede the operation — holds for every int64 value of every variable (wrap-around arithmetic) and every slice length; "
+               "C09_numeric_never_panics, C09_fill_terminates, C09_toString_never_traps for the modelled natives. Everything else that is "
+               "installed (natives that call back into JavaScript or goja: iteration, JSON, reflection-based conversion, net/url) is covered by "
+               "the hostile-argument run only: that part is a test, not a proof",
+    level_note="Proof covers partial Go operations in straight-line natives; the VC generator (translator/vc.go) is trusted to enumerate them and to "
+               "carry the path conditions faithfully (conditions it cannot translate are dropped, which only weakens hypotheses). Handle conversion of "
+               "clear* arguments by goja reflection, recursion depth of Buffer.from, and all natives outside the VC lists rely on the run-time oracle: "
+               "each call under try/catch in the script, recover() and a watchdog in the harness.",
+    rule="every installed function/method/constructor/accessor (inventory walked at run time: require, Buffer + prototype, URL + accessors, "
+         "URLSearchParams + iterator, url module, util, console, process, six timer functions) in turn, 0-4 arguments from the property's hostile "
+         "alphabet (80 values incl. throwing valueOf/toString/toPrimitive, hostile array-likes, typed arrays, proxies, handles of other kinds), "
+         "natural or foreign receiver; sizes between 64 MiB and 2^32 excluded; non-trivial = at least one hostile argument or a foreign receiver",
+    codes={"Implgo-panic-escaped": "a Go run-time panic escaped into the embedding program", "Implhang": "the call did not return within the watchdog",
+           "Impluncatchable-error": "an error the script's try/catch could not catch",
+           "Implinventory-differs-from-translated-registrations": "installed Buffer methods differ from the registrations the translator extracted"},
+    trusted=["goja (argument conversion by reflection, iteration protocol, exception propagation)", "the watchdog / recover() plumbing of the harness"],
+    assumptions=["time bounded by the size of the arguments: allocation sizes above 64 MiB are not exercised"],
+)
